@@ -451,7 +451,7 @@ func genVariant(cfg *campaignCfg, c *Case, idx int, v Variant) VariantRec {
 			rec.VetOut = vo
 		}
 	} else {
-		lo, lc, _ := runCmd(dir, 60*time.Second, nil, cfg.node, cfg.runts, "--load-only", "p.ts")
+		lo, lc, _ := runCmd(dir, 60*time.Second, []string{"NODE_NO_WARNINGS=1"}, cfg.node, cfg.runts, "--load-only", "p.ts")
 		rec.BuildOK = lc == 0
 		if len(lo) > 3000 {
 			lo = lo[:3000]
@@ -472,7 +472,7 @@ func runVariant(cfg *campaignCfg, rec *VariantRec, v Variant, inputsPath string,
 		}
 		out, code, to = runCmd(rec.Dir, 120*time.Second, env, filepath.Join(rec.Dir, "p"), inputsPath)
 	} else {
-		out, code, to = runCmd(rec.Dir, 120*time.Second, nil, cfg.node, cfg.runts, "p.ts", inputsPath)
+		out, code, to = runCmd(rec.Dir, 120*time.Second, []string{"NODE_NO_WARNINGS=1"}, cfg.node, cfg.runts, "p.ts", inputsPath)
 	}
 	runs, stray := splitRuns(out)
 	errs := ""
